@@ -202,6 +202,10 @@ func (d *segmentationDescriptor) parseDescriptor(data []byte) error {
 		b, _ := buf.ReadByte()
 		return b
 	}
+	// identifier (4), segmentation_event_id (4), cancel indicator (1)
+	if buf.Len() < 9 {
+		return gots.ErrInvalidSCTE35Length
+	}
 	if binary.BigEndian.Uint32(buf.Next(4)) != segDescID {
 		return gots.ErrSCTE35InvalidDescriptorID
 	}
@@ -248,11 +252,19 @@ func (d *segmentationDescriptor) parseDescriptor(data []byte) error {
 			// Iterate over the whole MID len(segUpidLen) to get all `n` UPIDs
 			// segUpidLen is in bytes.
 			for segUpidLen != 0 {
+				// every UPID of the MID needs its type and length bytes
+				if segUpidLen < 2 || buf.Len() < 2 {
+					return gots.ErrInvalidSCTE35Length
+				}
 				UpidElem := upidSt{}
 				UpidElem.upidType = SegUPIDType(readByte())
 				segUpidLen -= 1
 				UpidElem.upidLen = int(readByte())
 				segUpidLen -= 1
+				// and must stay inside the MID and the descriptor
+				if UpidElem.upidLen > segUpidLen || UpidElem.upidLen > buf.Len() {
+					return gots.ErrInvalidSCTE35Length
+				}
 				UpidElem.upid = buf.Next(UpidElem.upidLen)
 				segUpidLen -= UpidElem.upidLen
 				d.mid = append(d.mid, UpidElem)
